@@ -106,6 +106,9 @@ type w1Body struct {
 	HookExitP  float64     `json:"hook_exit_p"`
 	TailMs     int64       `json:"tail_ms"`
 	NoStallLiv bool        `json:"-"`
+	// C40 runs without always-available paths: publishers also send an H.264 track whose in-band
+	// parameters change now and then (the stream then rewrites its description in place)
+	Video bool `json:"video,omitempty"`
 }
 
 var w1HookKinds = []string{"init", "demand", "undemand", "avail", "unavail", "online", "offline"}
@@ -474,6 +477,9 @@ func (w *w1World) Gen(rng *rand.Rand, property, tier string) (any, simrt.Sched) 
 			}
 		}
 	}
+	if property == "C40" && !always {
+		b.Video = rng.Intn(2) == 0
+	}
 	return b, sched
 }
 
@@ -658,11 +664,24 @@ func w1Payload(pub int64, fm int, serial int64) []byte {
 }
 
 func (h *w1Harness) mkDesc() *description.Session {
-	return &description.Session{Medias: []*description.Media{
+	d := &description.Session{Medias: []*description.Media{
 		{Type: description.MediaTypeAudio, Formats: []format.Format{&format.G711{PayloadTyp: 0, MULaw: true, SampleRate: 8000, ChannelCount: 1}}},
 		{Type: description.MediaTypeAudio, Formats: []format.Format{&format.LPCM{PayloadTyp: 96, BitDepth: 16, SampleRate: 8000, ChannelCount: 1}}},
 	}}
+	if h.body.Video {
+		d.Medias = append(d.Medias, &description.Media{Type: description.MediaTypeVideo,
+			Formats: []format.Format{&format.H264{PayloadTyp: 97, SPS: w1SPS, PPS: w1PPS[0], PacketizationMode: 1}}})
+	}
+	return d
 }
+
+var w1SPS = []byte{
+	0x67, 0x42, 0xc0, 0x28, 0xd9, 0x00, 0x78, 0x02,
+	0x27, 0xe5, 0x84, 0x00, 0x00, 0x03, 0x00, 0x04,
+	0x00, 0x00, 0x03, 0x00, 0xf0, 0x3c, 0x60, 0xc9, 0x20,
+}
+
+var w1PPS = [][]byte{{0x08, 0x06, 0x07, 0x08}, {0x08, 0x07, 0x08, 0x09}}
 
 func w1WriteUnit(ss *stream.SubStream, desc *description.Session, who string, pub int64, fm int, serial int64, pts int64) {
 	medi := desc.Medias[fm]
@@ -776,6 +795,12 @@ func (h *w1Harness) runPub(idx int, a *w1Actor) {
 				fm = 0
 			}
 			w1WriteUnit(res2.SubStream, desc, name, int64(idx), fm, serial, serial*160)
+			if len(desc.Medias) > 2 && serial%3 == 0 {
+				// a key frame with in-band parameters; they change every second time
+				vm := desc.Medias[2]
+				res2.SubStream.WriteUnit(vm, vm.Formats[0], &unit.Unit{PTS: serial * 900,
+					Payload: unit.PayloadH264{w1SPS, w1PPS[(serial/6)%2], {5, byte(serial)}}})
+			}
 			serial++
 		}
 		simrt.Rec("pub.remove.call", name, a.Path, 0, 0, 0)
